@@ -324,6 +324,18 @@ def marshal_rules(ctx, c, mfi, paths, selft):
                 ctr = incs[0][3][2]
                 # read-then-increment or increment-then-read: both fresh
                 ok5 = ser == ctr or ser == incs[0][3]
+                # one process-wide counter: read and written on the class
+                # that defines it (type(self)/self would fork a counter per
+                # subclass or per instance and serials would repeat)
+                okg = incs[0][1] == ('class', MSG) and ctr[1] == (
+                    'class', MSG)
+                ctx.ob('C03.D5', q, 'one-global-counter:%s' % cname, okg,
+                       'serials must come from the single process-wide '
+                       'counter DBusMessage._nextSerial; this path reads '
+                       '%s and writes it on %s: each message class (or '
+                       'instance) then numbers its serials independently and '
+                       'serials repeat' % (term_str(ctr)[:60],
+                                           term_str(incs[0][1])[:40]))
             ctx.ob('C03.D5', q, 'fresh-serial:%s' % cname, bool(ok5),
                    'a new serial must be taken from the counter and the '
                    'counter incremented by a positive constant on the same '
